@@ -541,8 +541,24 @@ func (p *parser) generateGenericContext(fun ast.GenericContext, params []ast.Par
 		)
 	}
 
-	operators := maps.Clone(p.Operators)
-	maps.Copy(operators, fun.Operators)
+	// the overloads visible where the generic function was declared take precedence,
+	// the body must not be captured by an overload of the calling module for the same parameter types
+	operators := maps.Clone(fun.Operators)
+	if operators == nil {
+		operators = make(ast.OperatorOverloadMap, len(p.Operators))
+	}
+	for operator, callSiteOverloads := range p.Operators {
+	callSiteLoop:
+		for _, overload := range callSiteOverloads {
+			for _, existing := range operators[operator] {
+				if existing == overload || operatorParameterTypesEqual(existing.Parameters, overload.Parameters) &&
+					(operator != ast.CAST_OP || operatorReturnTypeEqual(existing.ReturnType, overload.ReturnType)) {
+					continue callSiteLoop
+				}
+			}
+			operators[operator] = insertSortedOverload(operators[operator], overload)
+		}
+	}
 
 	return ast.GenericContext{
 		Symbols:   symbols,
